@@ -2,7 +2,7 @@
    Data and basic edge / kernel plumbing.  Model only. *)
 From Coq Require Import List ZArith Bool Arith.
 From RecordUpdate Require Import RecordUpdate.
-From FV Require Import ListLemmas Kernel SrcFragments TieB.
+From FV Require Import ListLemmas Kernel SrcFragments Lens.
 From FV Require StoreB.
 Import ListNotations.
 Open Scope Z_scope.
